@@ -153,6 +153,41 @@ def run(ctx):
                 calcN(ctx, thetas, k)
         elif kind == "conv_ad":
             conversions_ad(ctx)
+            numeric_small_components(ctx, specs, 30 if ctx.quick else 600)
+
+
+def numeric_small_components(ctx, specs, n):
+    """the numeric (DM) call path: rotation vectors of magnitude 1e-3..1 rad one of whose components (or translations) is
+    1e-10..1e-6 -- "small" is about the rotation magnitude, every component still counts to 1e-9 (tolerance-based clean-ups
+    of numeric matrices only act on constants, never on the symbolic path the other sub-checks evaluate)"""
+    rng = ctx.rng("c06:numeric_small")
+    for spec in specs:
+        try:
+            G = spec.lib()
+        except Exception:
+            continue
+        X = spec.alg_rand(rng, n, hi=1.0, thi=1.0, tlo=1e-3)
+        X = X[spec.alg_angle(X) <= 1.0]
+        if not len(X):
+            continue
+        for k in range(len(X)):
+            j = int(rng.integers(0, spec.na))
+            X[k, j] = float(rng.choice([-1.0, 1.0]) * O.loguniform(rng, 1e-10, 1e-6, 1)[0])
+        ref = O.expm_batch(spec.hat(X))
+        err, errl = [], []
+        for k in range(len(X)):
+            try:
+                E = G.algebra.elem(ca.DM(X[k])).exp(G)
+                P = np.array(ca.DM(E.param).full()).ravel()
+                err.append(float(np.abs(spec.mat(P[None, :])[0] - ref[k]).max()) if np.isfinite(P).all() else np.inf)
+                Lg = np.array(ca.DM(G.elem(ca.DM(P)).log().param).full()).ravel()
+                errl.append(float(np.abs(Lg - X[k]).max()) if np.isfinite(Lg).all() else np.inf)
+            except NotImplementedError:
+                break
+        if err:
+            m = len(err)
+            ctx.check_array("numeric_exp_accuracy", spec.name, err, TOL * spec.alg_scale(X[:m]), {"x": X[:m]})
+            ctx.check_array("numeric_log_exp_accuracy", spec.name, errl, TOL * spec.alg_scale(X[:m]), {"x": X[:m]})
 
 
 def axis_and_trans(ctx, spec, k, tag):
